@@ -4,6 +4,8 @@ import vlib
 from vlib import rnd_u64, U64
 
 THEOREMS = ["C17_unix", "C17_string_denotes", "C17_format_total", "C17_now", "C17_civil_correct"]
+REPEAT = 2            # case lines repeated 66 000 times on one thread (state that builds up over many calls)
+REPEAT_CMDS = ('TSTR', 'UNIX')
 RELEASE = True
 OFFSET_MS = 946684800000
 LAST_9999 = 252455615999999
